@@ -1,5 +1,6 @@
 SPECIFICATION Spec
 CONSTANT MaxBlocks = 2
+CONSTANT Prelude <- PreludeDeps
 INVARIANT C05
 INVARIANT KnownVerdict
 INVARIANT InterOrder
